@@ -35,6 +35,30 @@ Theorem C18_gate_before_login : forall c, gate PNotAuth c =
 Proof. exact gate_notauth. Qed.
 Print Assumptions C18_gate_before_login.
 
+(* ... after LOGIN (also after CLOSE / UNSELECT): LOGIN is BAD, selected-state commands are refused with NO, everything
+   else reaches its handler in the session of u with no selection; with a selected mailbox every command but LOGIN,
+   LOGOUT, STARTTLS reaches its handler in the session of u (no command is refused in a state in which the RFC allows it) *)
+Theorem C18_gate_authenticated : forall u c, gate (PAuth u) c =
+  match c with
+  | CLogin => DRefuse RBad
+  | CLogout => DLogout
+  | CStartTLS => DDrop
+  | CCheck | CClose | CExpunge | CUIDExpunge | CUnselect | CSearch | CFetch | CStore | CCopy | CMove | CUID => DRefuse RNo
+  | _ => DAdmit u None
+  end.
+Proof. exact gate_auth. Qed.
+Print Assumptions C18_gate_authenticated.
+
+Theorem C18_gate_selected : forall u m ro c, gate (PSel u m ro) c =
+  match c with
+  | CLogin => DRefuse RBad
+  | CLogout => DLogout
+  | CStartTLS => DDrop
+  | _ => DAdmit u (Some (m, ro))
+  end.
+Proof. exact gate_sel. Qed.
+Print Assumptions C18_gate_selected.
+
 (* Before a successful LOGIN: in every history, a command of a connection that is not authenticated changes no store
    of any user, and every mailbox or message command (authenticated class, selected class, IDLE) is answered NO and
    changes nothing at all (no store, no connection, no login counter). *)
